@@ -387,6 +387,34 @@ func c08cases(seed int64, i int, keys *gen.KeyRing) []c08case {
 				}
 				return ""
 			}, mapClass(unprot)},
+		c08case{"Headers.MarshalProtected", func() ([]byte, error) { h := hdr(); return h.MarshalProtected() },
+			func(out []byte) string {
+				var d cose.ProtectedHeader
+				if err := d.UnmarshalCBOR(out); err != nil {
+					return "own output refused by the decoder: " + err.Error()
+				}
+				if !eqHeader(prot, d) {
+					return "decoded value not equivalent to the source"
+				}
+				if direct, err := cose.ProtectedHeader(hdr().Protected).MarshalCBOR(); err != nil || !bytes.Equal(direct, out) {
+					return "Headers.MarshalProtected differs from ProtectedHeader.MarshalCBOR of the same map"
+				}
+				return ""
+			}, mapClass(prot)},
+		c08case{"Headers.MarshalUnprotected", func() ([]byte, error) { h := hdr(); return h.MarshalUnprotected() },
+			func(out []byte) string {
+				var d cose.UnprotectedHeader
+				if err := d.UnmarshalCBOR(out); err != nil {
+					return "own output refused by the decoder: " + err.Error()
+				}
+				if !eqHeader(unprot, d) {
+					return "decoded value not equivalent to the source"
+				}
+				if direct, err := cose.UnprotectedHeader(hdr().Unprotected).MarshalCBOR(); err != nil || !bytes.Equal(direct, out) {
+					return "Headers.MarshalUnprotected differs from UnprotectedHeader.MarshalCBOR of the same map"
+				}
+				return ""
+			}, mapClass(unprot)},
 		c08case{"Sign1(helper)", func() ([]byte, error) { return cose.Sign1(gen.Entropy, spy(), hdr(), payload, ext) }, checkSign1(true), cls},
 		c08case{"Sign1Untagged(helper)", func() ([]byte, error) { return cose.Sign1Untagged(gen.Entropy, spy(), hdr(), payload, ext) }, checkSign1(false), cls},
 	)
